@@ -395,7 +395,7 @@ def mk_rop(letter, rng, nt, bo, atom):
     if letter == 'tbig':
         return dict(op='truncate', index=100)
     if letter == 'tni':
-        return dict(op='truncate', index=1, nonint=rng.choice(['float', 'npint', 'str']))
+        return dict(op='truncate', index=1, nonint=rng.choice(['float', 'npint', 'npint', 'npint16', 'npuint8', 'str']))
     if letter == 'ro':
         return dict(op='reopen', mode='r+')
     if letter == 'ror':
@@ -430,6 +430,19 @@ def rhistory_case(rng, nt, bo, atom, indextype, sublens, letters, mode='r+', met
     c['sublens'] = sublens
     c['ops'] = [mk_rop(l, rng, nt, bo, atom) for l in letters]
     return c
+
+
+def trailing_empty_cases(rng):
+    """truncations that remove ONLY trailing zero-length subarrays, for every atom (the number of value
+    rows and the number of values differ when the atom has more than one element)"""
+    out = []
+    for k, atom in enumerate([(), (2,), (1,), (2, 3), (2, 1)]):
+        for j, (sl, letters) in enumerate([([2, 0, 0], ['t1', 'a1', 'ro']), ([1, 0], ['t-1', 'a0', 't-1', 'ro']),
+                                           ([3, 1, 0, 0, 0], ['t-1', 't3' if False else 't2', 'ro', 'a1'])]):
+            nt = NUMTYPES[(3 * k + j) % 13]
+            out.append(rhistory_case(rng, nt, ('little', 'big')[(k + j) % 2], atom, INDEXTYPES[(k + 2 * j) % len(INDEXTYPES)],
+                                     sl, letters))
+    return out
 
 
 def adir_term(f):
